@@ -1305,7 +1305,8 @@ class C12(Prop):
         out.append(dict(base, cov=True, u=[[1, 2, -1, 3, 1], [2, -1, 1, 0, -2], [-3, 1, 2, 1, 1], [1, 1, 0, -1, 2]], mem=2, mem2=None, nself=1))
         out.append(dict(base, cov=True, scheme="dihybrid", via="gmod", geno=[[[0, 1, 1, 0], [1, 0, 0, 1]], [[1, 1, 0, 0], [1, 0, 1, 1]]], perm=[1, 0],
                         u=[[1, 2, -1, 3, 1], [2, -1, 1, 0, -2], [-3, 1, 2, 1, 1], [1, 1, 0, -1, 2]], mem=2, mem2=None, nself=0))
-        # finding D37: completely linked markers whose effects cancel: the reported variance is -5.4e-16 (rounding), its
+        # regression case for fix D37 (sqrt of a variance that rounding left below zero): completely linked markers whose
+        # effects cancel: the reported variance is -5.4e-16 (rounding), its
         # square root NaN
         us = [0.35, 1.1, 0.9, 0.1, -3.15, 0.7]
         out.append({"kind": "uc", "scheme": "two", "cov": False, "geno": inb([[1] * 6, [0] * 6]), "u": [[canon.enc(v)] for v in us],
@@ -1988,10 +1989,7 @@ class C12(Prop):
                 msc = max(abs(float(pm[t])), max(abs(float(bv[k][t])) for k in range(n)), inten * math.sqrt(sc), 1e-300)
                 ucv = canon.dec(row[t])
                 if isinstance(ucv, str):
-                    # finding D37: the square root of a variance that rounding left slightly below zero (the enumerated
-                    # variance vanishes to 1e-15 of its natural scale) is NaN
-                    vanishing = enum is not None and abs(float(enum[tup][1][t][t])) <= 1e-15 * sc
-                    fails.append(("nan_vanishing_variance" if vanishing and ucv == "nan" else "finite", tup, f"uc{cfg} trait {t} = {ucv}"))
+                    fails.append(("finite", tup, f"uc{cfg} trait {t} = {ucv}"))
                     bad_corr.append((tup, t))
                     continue
                 mv = float(canon.dec(mcell[t]))
@@ -2473,9 +2471,13 @@ class C12(Prop):
         # --- usefulness criterion
         ucmix = m["ucmod"].UsefulnessCriterionSelectionProblemMixin
 
+        UC_SQRT = "numpy.sqrt(numpy.maximum(pvar, 0.0))"
+
         def resrc_static(subs):
             fn = ucmix.__dict__["_calc_uc"].__func__
             src = textwrap.dedent(inspect.getsource(fn)).replace("\r", "")
+            if UC_SQRT not in src:                      # a tree without fix D37: the mutants are written against the repaired form
+                src = src.replace("numpy.sqrt(pvar)", UC_SQRT)
             for a, b in subs:
                 if a not in src:
                     raise RuntimeError(f"mutant pattern not found: {a!r}")
@@ -2486,13 +2488,13 @@ class C12(Prop):
             new = staticmethod(ns["_calc_uc"])
             return lambda: patch(ucmix, "_calc_uc", new)
 
-        muts.append(("uc_without_sqrt", resrc_static([("numpy.sqrt(pvar)", "pvar")])))
+        muts.append(("uc_without_sqrt", resrc_static([(UC_SQRT, "pvar")])))
         muts.append(("uc_mean_unweighted", resrc_static([("pmean = epgc.dot(bvmat[cconfig,:])", "pmean = bvmat[cconfig,:].mean(0) if len(set(epgc)) > 1 else bvmat[cconfig,:].sum(0)")])))
         muts.append(("uc_mean_from_scaled_breeding_values", resrc_static([("bvmat = bvmat_obj.unscale()", "bvmat = bvmat_obj.mat")])))
         muts.append(("uc_zero_variance_for_one_taxon_configurations", resrc_static([
             ("pvar = vmat[tuple(cconfig) + (slice(None),)]",
              "pvar = vmat[tuple(cconfig) + (slice(None),)] * (0.0 if len(set(int(c) for c in cconfig)) == 1 else 1.0)")])))
-        muts.append(("uc_variance_clipped_from_below", resrc_static([("numpy.sqrt(pvar)", "numpy.sqrt(numpy.clip(pvar, 1e-8, None))")])))
+        muts.append(("uc_variance_clipped_from_below", resrc_static([(UC_SQRT, "numpy.sqrt(numpy.clip(pvar, 1e-8, None))")])))
         for cname, meth in (("Real", "from_pgmat_gpmod_xmap"), ("Integer", "from_pgmat_gpmod"), ("Binary", "from_pgmat_gpmod_xmap")):
             cls = getattr(m["ucmod"], f"UsefulnessCriterion{cname}MateSelectionProblem")
             muts.append((f"uc_intensity_divided_by_complement_{cname}_{meth}", resrc(cls, m["ucmod"], [
@@ -2563,8 +2565,10 @@ class C12(Prop):
         muts.append(("dihybrid_markers_without_effect_on_first_trait_dropped", resrc(m["var_dihybrid"], m["var_mod_dihybrid"], [
             ("ru = u[rst:rsp].T", "ru = (u[rst:rsp] * (u[rst:rsp,0:1] != 0.0)).T")])))
         muts.append(("uc_mean_only_when_some_trait_does_not_segregate", resrc_static([
-            ("uc[i,:] = pmean + selection_intensity * numpy.sqrt(pvar)",
-             "uc[i,:] = pmean + (selection_intensity * numpy.sqrt(pvar) if numpy.all(pvar > 0.0) else 0.0)")])))
+            ("uc[i,:] = pmean + selection_intensity * " + UC_SQRT,
+             "uc[i,:] = pmean + (selection_intensity * " + UC_SQRT + " if numpy.all(pvar > 0.0) else 0.0)")])))
+        # undo fix D37: the square root of the variance as reported (NaN where rounding left it below zero)
+        muts.append(("uc_sqrt_of_unclipped_variance_undo_D37", resrc_static([(UC_SQRT, "numpy.sqrt(pvar)")])))
         # three-way covariance: shortcut for female == male that forgets the factor 4
         muts.append(("three_way_cov_self_hybrid_shortcut_quarter", resrc(m["cov_three"], m["cov_mod_three"], [
             ("                            rdgeno23 = geno[0,female,rst:rsp] - geno[0,male,rst:rsp]",
